@@ -43,7 +43,8 @@ class C13(Prop):
             "run without -a occurs in the same order and direction inside the -a datagrams; one evaluation = one pair; "
             "non-trivial = the run without -a exported data and -a changed the output; distinct = spec digests")
     reach = ["tls", "quic", "a_added_packets", "hello_spans_packets", "multi_conn", "alert_followed_by_data",
-             "encrypted_hello_request_mid_connection", "damaged_application_record"]
+             "encrypted_hello_request_mid_connection", "damaged_application_record",
+             "coarse_capture_clock"]
 
     def plan(self, tier):
         p = super().plan(tier)
@@ -62,6 +63,14 @@ class C13(Prop):
             if c["proto"] == "tls" and len(c.get("recs", [])) >= 2 and R.chance(15):
                 c["alert_mid"] = R.range(1, len(c["recs"]) - 1)
                 c["close"] = False
+        CK = R.fork("clock")
+        if CK.chance(25):
+            # a coarse capture clock: consecutive datagrams (also of both directions) share a timestamp
+            spec["tap"]["res_us"] = CK.choice([1000, 1000, 10000])
+            for c in spec["conns"]:
+                if c["proto"] == "quic":
+                    c["unique_ts"] = "per_direction"
+            spec["coarse_clock"] = True
         D = R.fork("damage")
         tl = [c for c in spec["conns"] if c["proto"] == "tls" and c["ver"] != T.TLS13]
         if tl and D.chance(20):
@@ -108,6 +117,8 @@ class C13(Prop):
             return out
         if len(spec["conns"]) > 1:
             out.count("reach:multi_conn")
+        if spec.get("coarse_clock"):
+            out.count("reach:coarse_capture_clock")
         if len(f1.parsed) > len(f0.parsed):
             out.count("reach:a_added_packets")
         for c in ex0["truth"]["conns"]:
